@@ -98,6 +98,11 @@ def run(ck, facts, tier):
     r5 = ck.rule("R04.5", "no calendar type overrides a provided roll/adjust method of DateRoll (all kinds of calendar share the verified bodies)", floor=1)
     over = [r["fn"] for r in facts.all_fns() if (r.get("trait_item") or "").startswith(DR) and (r.get("trait_item") or "").rsplit("::", 1)[-1] in ROLLS + ["is_bus_day", "is_non_bus_day"]]
     ck.check(r5, "overrides", not over, "provided DateRoll methods overridden: %s" % over[:3], sample="none of %d provided methods is overridden" % (len(ROLLS) + 2))
+    # "business day" and "valid settlement day" are the predicates of C06 (union semantics, delegation): necessary conditions here too
+    from rules import c06
+    nd, tb = list(ck.not_decided), list(ck.trusted)
+    c06.run(ck, facts, tier, only={"R06.0", "R06.1", "R06.2"})
+    ck.not_decided[:], ck.trusted[:] = nd, tb
     ck.not_decided += ["termination (a week mask with no working day, or no settlement day ahead)", "dates outside chrono's range",
                        "the postcondition follows from the linear-search idiom; it is not evaluated on concrete calendars"]
     ck.trusted += ["lib/cel.py loop summarisation (while as iterate(init, cond, step))", "chrono: date +/- Days(1) is the next/previous calendar day"]
